@@ -57,6 +57,7 @@ class Model:
             comps = it[1]
             # law: zip(df[a].tolist(), df[b].tolist(), ...) over the SAME rows walks the rows of df: each component is that row's value of the column
             if comps and all(isinstance(x, tuple) and len(x) == 3 and x[0] == "tolist" for x in comps) and len({x[2] for x in comps}) == 1:
+                self.log("row-walk", None, ctx=comps[0][2], columns=tuple(x[1] for x in comps))          # (which rows are walked: for rules that need the selection)
                 return PyTuple([("at", ("row",), x[1]) for x in comps])
             return PyTuple([("elem", x) for x in comps])
         # law: iterating [f(y) for y in L] yields f(y) for the elements y of L (same order)
